@@ -1,122 +1,10 @@
 #!/usr/bin/env python3
-"""extract_tables.py <repo> <outdir> — regenerate lean/UVerif/Generated/FastTables.lean from the CURRENT sources.
-
-Extracted (regex over the comment-stripped headers):
-  * the lookup tables of the table-driven fast posits posit_2_0 / 3_0 / 3_1 / 4_0
-    (addition, subtraction, multiplication, division, reciprocal, less_than, values)
-  * posit/math/sqrt_tables.hpp (posit_3_0_roots … posit_8_1_roots)
-  * the seed tables approxRecipSqrt0/1 of posit/math/sqrt.hpp (fast sqrt of posit<16,1> and <32,2>)
-Every expected name is always emitted (an empty array when the table is not found), so that the driver library keeps
-building when a table disappears or changes shape; the proof modules that `decide` over the tables are the ones that break.
-"""
-import os, re, struct, sys, hashlib
-
-EXPECTED = [
-    "posit_2_0_addition_lookup", "posit_2_0_subtraction_lookup", "posit_2_0_multiplication_lookup",
-    "posit_2_0_division_lookup", "posit_2_0_reciprocal_lookup", "posit_2_0_less_than_lookup", "posit_2_0_values_lookup",
-    "posit_3_0_addition_lookup", "posit_3_0_subtraction_lookup", "posit_3_0_multiplication_lookup",
-    "posit_3_0_division_lookup", "posit_3_0_reciprocal_lookup", "posit_3_0_less_than_lookup", "posit_3_0_values_lookup",
-    "posit_3_1_addition_lookup", "posit_3_1_subtraction_lookup", "posit_3_1_multiplication_lookup",
-    "posit_3_1_division_lookup", "posit_3_1_reciprocal_lookup",
-    "posit_4_0_addition_lookup", "posit_4_0_subtraction_lookup", "posit_4_0_multiplication_lookup",
-    "posit_4_0_division_lookup", "posit_4_0_reciprocal_lookup",
-    "posit_3_0_roots", "posit_3_1_roots", "posit_4_0_roots", "posit_5_0_roots", "posit_8_0_roots", "posit_8_1_roots",
-    "approxRecipSqrt0", "approxRecipSqrt1",
-]
-FILES = [
-    "include/universal/number/posit/specialized/posit_2_0.hpp",
-    "include/universal/number/posit/specialized/posit_3_0.hpp",
-    "include/universal/number/posit/specialized/posit_3_1.hpp",
-    "include/universal/number/posit/specialized/posit_4_0.hpp",
-    "include/universal/number/posit/math/sqrt_tables.hpp",
-    "include/universal/number/posit/math/sqrt.hpp",
-]
-DECL = re.compile(r"(?:constexpr|const|static)?\s*(?:const\s+)?(uint8_t|uint16_t|uint32_t|unsigned|unsigned\s+int|bool|float|double|int)\s+"
-                  r"(\w+)\s*\[\s*(\d*)\s*\]\s*=\s*\{([^{}]*)\}\s*;", re.S)
-
-
-def strip_comments(s):
-    s = re.sub(r"/\*.*?\*/", " ", s, flags=re.S)
-    return re.sub(r"//[^\n]*", " ", s)
-
-
-def f32_bits(tok):
-    t = tok.strip().replace(" ", "")
-    neg = False
-    while t.startswith("-") or t.startswith("+") or t.startswith("("):
-        if t.startswith("-"):
-            neg = not neg
-        t = t[1:]
-    t = t.rstrip(")")
-    if "INFINITY" in t:
-        v = float("inf")
-    elif "NaN" in t or "NAN" in t or "quiet_NaN" in t:
-        # any NaN: canonical quiet NaN pattern
-        return 0x7fc00000
-    else:
-        v = float(t.rstrip("fFlL"))
-    if neg:
-        v = -v
-    return struct.unpack("<I", struct.pack("<f", v))[0]
-
-
-def parse_values(ctype, body):
-    toks = [t.strip() for t in body.replace("\n", " ").split(",")]
-    toks = [t for t in toks if t]
-    out = []
-    for t in toks:
-        if ctype in ("float", "double"):
-            out.append(f32_bits(t))
-        elif t in ("true", "false"):
-            out.append(1 if t == "true" else 0)
-        else:
-            t2 = t.rstrip("uUlL")
-            out.append(int(t2, 0))
-    return out
-
-
-def main():
-    repo, outdir = sys.argv[1], sys.argv[2]
-    found, digest = {}, hashlib.sha256()
-    for rel in FILES:
-        p = os.path.join(repo, rel)
-        if not os.path.exists(p):
-            continue
-        raw = open(p, encoding="utf-8", errors="replace").read()
-        digest.update(raw.encode("utf-8", "replace"))
-        src = strip_comments(raw)
-        for m in DECL.finditer(src):
-            ctype, name, size, body = m.group(1), m.group(2), m.group(3), m.group(4)
-            if name not in EXPECTED:
-                continue
-            try:
-                vals = parse_values(ctype, body)
-            except Exception as ex:  # unparsable initialiser: leave the table empty, the proofs will say so
-                print(f"extract_tables: cannot parse {name} in {rel}: {ex}")
-                vals = []
-            found[name] = (rel, vals, int(size) if size else len(vals))
-    os.makedirs(outdir, exist_ok=True)
-    lines = ["/- GENERATED by gen/extract_tables.py from the current /repo sources — do not edit, not committed. -/",
-             "namespace UVerif.Generated", ""]
-    for name in EXPECTED:
-        rel, vals, size = found.get(name, ("(not found)", [], 0))
-        lines.append(f"/-- {rel}: `{name}[{size}]` ({len(vals)} initialisers) -/")
-        body = ", ".join(str(v) for v in vals)
-        lines.append(f"def {name} : Array Nat := #[{body}]")
-        lines.append("")
-    lines.append(f"def sourceDigest : String := \"{digest.hexdigest()[:16]}\"")
-    lines.append("")
-    lines.append("end UVerif.Generated")
-    text = "\n".join(lines) + "\n"
-    out = os.path.join(outdir, "FastTables.lean")
-    old = open(out).read() if os.path.exists(out) else None
-    if old != text:          # keep the mtime when nothing changed so that lake does not rebuild
-        with open(out, "w") as fh:
-            fh.write(text)
-    missing = [n for n in EXPECTED if n not in found]
-    print(f"extract_tables: {len(found)}/{len(EXPECTED)} tables -> {out}" + (f" (missing: {', '.join(missing)})" if missing else ""))
-    return 0
-
-
-if __name__ == "__main__":
-    sys.exit(main())
+"""extract_tables.py <repo> <outdir> — regenerate every Lean table file from the CURRENT sources of <repo>
+(called by check.py on every run and by MANIFEST.setup_cmd; lean/UVerif/Generated is git-ignored)."""
+import os, subprocess, sys
+here = os.path.dirname(os.path.abspath(__file__))
+rc = 0
+for script in ("extract_fast_tables.py", "extract_cfloat_tables.py"):
+    r = subprocess.run([sys.executable, os.path.join(here, script)] + sys.argv[1:])
+    rc = rc or r.returncode
+sys.exit(rc)
